@@ -546,7 +546,9 @@ mod n {
                 }
                 // ventilation rate reported with the indicators is the one used inside the U-value calculation
                 let used = m.global_ventilation_rate();
-                c.check("C11.ventilation", g.global_ventilation_rate == used || (g.global_ventilation_rate.is_nan() && used.is_nan()), || format!("reported {} but U-value calculation uses {}", g.global_ventilation_rate, used));
+                // (with a building flow but no habitable volume inside the envelope both are l/s divided by +-0: not finite, and
+                //  equally meaningless; only finite values are compared)
+                c.check("C11.ventilation", g.global_ventilation_rate == used || (!g.global_ventilation_rate.is_finite() && !used.is_finite()), || format!("reported {} but U-value calculation uses {}", g.global_ventilation_rate, used));
                 if let Some(l_s) = m.meta.global_ventilation_l_s {
                     if vinh > 0.0 {
                         c.check("C11.ventilation.value", approx64(used, 3.6 * l_s as f64 / vinh, 1e-4, 1e-5), || format!("ventilation rate {} want {}", used, 3.6 * l_s as f64 / vinh));
